@@ -80,17 +80,28 @@ Definition chain_eqb (c d : chain) : bool := list_eqb (list_eqb term_eqb) c d.
 
 (* ------------------------------------------------------------------ the session's two chains and the skip test *)
 
-(* fsmAddressFamily keeps the import and the export chain of the session;
+(* fsmAddressFamily keeps the import and the export chain of the session, established or not;
    replaceImportFilterChain / replaceExportFilterChain (protocols/bgp/server/fsm_address_family.go) do nothing
-   when the new chain Equals the current chain OF THE SAME DIRECTION, otherwise they store it and call
-   ReplaceFilterChain on the Adj-RIB-In / Adj-RIB-Out. *)
-Record family := mkFam { fam_imp : chain; fam_exp : chain }.
+   when the new chain Equals the current chain OF THE SAME DIRECTION; otherwise they store it - whether or not
+   the session is up - and, if the RIBs exist (fam_up), call ReplaceFilterChain on the Adj-RIB-In / Adj-RIB-Out.
+   init() builds the RIBs from the stored chains; dispose() throws them away. *)
+Record family := mkFam { fam_imp : chain; fam_exp : chain; fam_up : bool }.
 
 Definition fam_replace_export (s : sess) (x : family * aro chain) (c : chain) (v : list (N * list path))
   : family * aro chain :=
   if chain_eqb c (fam_exp (fst x)) then x
-  else (mkFam (fam_imp (fst x)) c, replace_chain chain interp s (snd x) c v).
+  else (mkFam (fam_imp (fst x)) c (fam_up (fst x)),
+        if fam_up (fst x) then replace_chain chain interp s (snd x) c v else snd x).
 
 Definition fam_replace_import (x : family * loc) (r : rin) (c : chain) : family * loc :=
   if chain_eqb c (fam_imp (fst x)) then x
-  else (mkFam c (fam_exp (fst x)), replace_in (interp (fam_imp (fst x))) (interp c) r (snd x)).
+  else (mkFam c (fam_exp (fst x)) (fam_up (fst x)),
+        if fam_up (fst x) then replace_in (interp (fam_imp (fst x))) (interp c) r (snd x) else snd x).
+
+(* init(): a new Adj-RIB-Out with the stored export chain is registered with the Loc-RIB, which hands it the
+   first-n paths of every route (UpdateNewClient): one AddPath per path of the view *)
+Definition fam_init_export (s : sess) (f : family) (v : list (N * list path)) : family * aro chain :=
+  (mkFam (fam_imp f) (fam_exp f) true,
+   fold_left (fun a e => fold_left (fun a p => add_path chain interp s a (fst e) p) (snd e) a) v (init chain (fam_exp f))).
+
+Definition fam_dispose (f : family) : family := mkFam (fam_imp f) (fam_exp f) false.
